@@ -8,6 +8,17 @@ claims = {
     text="Every (crypto.Hash).New(<const id>) reachable from the three hashing entry points must have a crypto.RegisterHash(<id>) call in an init function of a package inside the import closure of the package itself; decided on the import graph, which is the same for every importing program. Thorough repeats it over 7 GOOS/GOARCH/tag configurations.",
     note="Trusted: go/packages import graph equals what the linker links; stdlib registry contract.", ref="3 C17, 2 E6"),
 }
+claims.update({
+ "C15": dict(level="proof", engine="E2 effects", technique="static analysis: interprocedural may-write / may-alias / freshness summaries over go/ssa (module fixpoint), with positive and negative control packages",
+    text="For each of the 60 exported functions and methods: no write reaches memory reachable from a non-receiver parameter (append counts as a write into its first operand's backing array unless the operand is fresh or capacity-capped by a 3-index slice), and every returned []byte is freshly allocated on every path. The summaries are symbolic in all argument values, lengths and capacities, so the verdict covers every slice layout.",
+    note="Trusted: go/ssa; effect models of the ~40 stdlib callees in svcheck/effects/calls.go; any callee without a model fails the check. Two named in/out exceptions over internal types (IsogenySecp256k13iso, Secp256Polynomial).", ref="3 C15, 2 E2"),
+ "C16": dict(level="proof", engine="E2 effects", technique="static analysis: frame (write-set) argument for race freedom from E2 summaries + reachable-external-package rule for determinism",
+    text="Race freedom on shared read-only arguments and distinct receivers follows from write sets: no exported function writes package-level state, hands out or retains pointers into it, or writes through a non-receiver parameter; no unsafe/cgo/assembly/goroutines; the hash object is per call. Determinism: no time/rand/os/runtime/sync package is reachable except crypto/rand from Scalar.Random. Holds for all schedules because it is a property of the write sets, not of an execution.",
+    note="Trusted: Go memory model (no write to shared data => no race); crypto/rand.Reader and the crypto registry are concurrency-safe; stdlib effect models.", ref="3 C16, 2 E2"),
+ "C10": dict(level="other", engine="E2 effects", technique="static analysis: frame + independence + closure rules from E2 summaries and a go/types shape walk (structural necessary conditions only)",
+    text="Decides the structural necessary conditions of the history property for every exported operation: writes only to the receiver and fresh memory, pointer results are the receiver or fresh (constructors and Copy: fresh), value-only Element/Scalar/field.Element types, package-level state read-only after init. Breaking any of these breaks some history. The behaviour of histories themselves is the per-operation functional correctness (C01-C09, C13, C14) plus a prose induction, which is not mechanised here.",
+    note="Not decided here: per-operation functional correctness and the induction over histories. Trusted: go/ssa, go/types, stdlib effect models.", ref="3 C10"),
+})
 pending = {}
 ids = ["C%02d" % i for i in range(1, 20)]
 checks = []
